@@ -204,6 +204,7 @@ var (
 		nodemoduletypes.ModuleName:     {authtypes.Minter, authtypes.Burner},
 		ordermoduletypes.ModuleName:    {authtypes.Staking},
 		marketmoduletypes.ModuleName:   {authtypes.Staking},
+		didmoduletypes.ModuleName:      nil,
 		// this line is used by starport scaffolding # stargate/app/maccPerms
 	}
 )
